@@ -206,3 +206,49 @@ func VH_SN_New() {
 		vx.Reach("configured-default")
 	}
 }
+
+// VH_SN_Queued: transports only queue a message; its bytes are read later (by the transport worker, by the
+// listener's connection). Two messages handed over one after the other are both still queued afterwards: each must
+// still carry its own body - the first one's bytes must not depend on anything the worker did for the second.
+func VH_SN_Queued() {
+	a := &vhAIO{}
+	httpP, pollP := &vhPlugin{typ: "http", accept: true}, &vhPlugin{typ: "poll", accept: true}
+	targetData := vx.Bytes("target.data")
+	w := &SenderWorker{plugins: map[string]aio.Plugin{"http": httpP, "poll": pollP},
+		targets: map[string]*receiver.Recv{"default": {Type: "poll", Data: targetData}}, aio: a, metrics: metrics.New(prometheus.NewRegistry())}
+	name := "default"
+	recv, _ := json.Marshal(&name)
+	var ts [2]*task.Task
+	var subs [2]*t_aio.SenderSubmission
+	var mtypes [2]string
+	for i, pfx := range []string{"first.", "second."} {
+		mtypes[i] = vx.String(pfx + "mesg.type")
+		vx.Assume(vx.Or(mtypes[i] == "invoke", mtypes[i] == "resume", mtypes[i] == "notify"))
+		ts[i] = &task.Task{Id: vx.String(pfx + "task.id"), Counter: vx.Int(pfx + "task.counter"), Recv: recv, Mesg: &message.Mesg{Type: message.Type(mtypes[i]), Root: vx.String(pfx + "root"), Leaf: vx.String(pfx + "leaf")}}
+		subs[i] = &t_aio.SenderSubmission{Task: ts[i], Promise: &promise.Promise{Id: vx.String(pfx + "promise.id")}, ClaimHref: vx.String(pfx + "claim"), CompleteHref: vx.String(pfx + "complete"), HeartbeatHref: vx.String(pfx + "heartbeat")}
+		w.Process(&bus.SQE[t_aio.Submission, t_aio.Completion]{Id: "s", Submission: &t_aio.Submission{Kind: t_aio.Sender, Tags: map[string]string{}, Sender: subs[i]}, Callback: func(*t_aio.Completion, error) {}})
+	}
+	vx.Assert(len(pollP.msgs) == 2 && len(httpP.msgs) == 0 && len(a.cqes) == 0, "C19:both-messages-handed-to-the-configured-target")
+	if len(pollP.msgs) != 2 {
+		return
+	}
+	vx.Reach("both-queued")
+	for i := 0; i < 2; i++ {
+		m := pollP.msgs[i]
+		vx.Assert(string(m.Type) == mtypes[i], "C19:message-type-is-the-tasks")
+		body, ok := vx.Unmarshalled(m.Body).(map[string]interface{})
+		vx.Assert(ok, "C19:queued-message-keeps-its-own-body")
+		if !ok {
+			continue
+		}
+		if mtypes[i] == "notify" {
+			pp, _ := body["promise"].(*promise.Promise)
+			vx.Assert(pp == subs[i].Promise, "C19:queued-message-keeps-its-own-body")
+		} else {
+			tk, _ := body["task"].(*task.Task)
+			href, _ := body["href"].(map[string]string)
+			vx.Assert(tk == ts[i] && href["claim"] == subs[i].ClaimHref && href["complete"] == subs[i].CompleteHref && href["heartbeat"] == subs[i].HeartbeatHref, "C19:queued-message-keeps-its-own-body")
+		}
+		vx.Assert(vx.BytesEq(m.Data, targetData), "C19:queued-message-keeps-its-own-address")
+	}
+}
